@@ -2,6 +2,7 @@ from __future__ import annotations
 
 import dataclasses
 import logging
+import math
 from copy import deepcopy
 from itertools import zip_longest
 from types import NoneType
@@ -957,7 +958,10 @@ class MyPyAstVisitor:
             ):
                 # See https://github.com/Safe-DS/Stub-Generator/issues/34#issuecomment-1819643719
                 inferred_default_value = mypy_expression_to_python_value(initializer)
-                if isinstance(inferred_default_value, bool | int | float | NoneType):
+                if isinstance(inferred_default_value, float) and not math.isfinite(inferred_default_value):
+                    # A float literal which is too large (e.g. 1e999) is infinite and cannot be written as JSON number
+                    return UnknownValue(), default_is_none
+                elif isinstance(inferred_default_value, bool | int | float | NoneType):
                     default_value = inferred_default_value
                 elif isinstance(inferred_default_value, str):
                     default_value = f'"{inferred_default_value}"'
